@@ -14,6 +14,35 @@ int main(int argc, char **argv)
     {
         ci++;
         const std::string &op = c[0];
+        if (op == "chain")
+        {
+            // chain <inv|div|rdiv|exp> <k> <a> <b> : x = a; k times x = inv(x) / x / b / b / x / x^b, the result object being the
+            // operand it replaces; every step is an ordinary event on the value the step started from
+            const std::string &f = c[1];
+            int k = atoi(c[2].c_str());
+            uint64_t bb = c.size() > 4 ? vh::parse_u64(c[4]) : 0;
+            E x{vh::parse_u64(c[3])};
+            for (int s = 0; s < k; s++)
+            {
+                uint64_t before = x.fe;
+                if (x.fe == 0 || x.fe == vh::PRIME)
+                    break;
+                if (f == "inv") Goldilocks::inv(x, x);
+                else if (f == "div") Goldilocks::div(x, x, E{bb});
+                else if (f == "rdiv") Goldilocks::div(x, E{bb}, x);
+                else Goldilocks::exp(x, x, bb);
+                const char *name = f == "inv" ? "inv" : (f == "exp" ? "exp" : "div");
+                o.begin(name);
+                o.num("ci", ci);
+                o.str("op", name);
+                o.str("form", "chain");
+                o.w64("a", f == "rdiv" ? bb : before);
+                o.w64("b", f == "rdiv" ? before : bb);
+                o.w64("r", x.fe);
+                o.end();
+            }
+            continue;
+        }
         uint64_t a = vh::parse_u64(c[1]), b = c.size() > 2 ? vh::parse_u64(c[2]) : 0;
         if (op == "inv" || op == "div")
         {
